@@ -39,9 +39,12 @@ enum Pos {
     HeldAfterReply,
     PeerGoneBeforeFinalShutdown,
     AfterExit,
+    /// the peer pipelines reply-producing requests and does not read: the daemon thread is parked
+    /// in sendmsg, writing a reply into a full socket
+    BlockedWritingReply,
 }
 
-const POSITIONS: [Pos; 7] = [
+const POSITIONS: [Pos; 8] = [
     Pos::IdleInHeaderRead,
     Pos::HeldBeforeRequest,
     Pos::HeaderReceivedBodyPending,
@@ -49,6 +52,7 @@ const POSITIONS: [Pos; 7] = [
     Pos::HeldAfterReply,
     Pos::PeerGoneBeforeFinalShutdown,
     Pos::AfterExit,
+    Pos::BlockedWritingReply,
 ];
 
 #[derive(Clone, Copy, Debug, PartialEq, Eq)]
@@ -186,6 +190,31 @@ fn shutdown_case(cfg: &Cfg, pos: Pos, ncallers: usize, order: &[Tok], case: &str
             peer_open = false;
             sys::wait_until(5000, || !sys::threads().iter().any(|t| t.0 == dtid));
         }
+        Pos::BlockedWritingReply => {
+            // smallest receive buffer on our side, then requests until the daemon's replies fill it
+            let one: libc::c_int = 1;
+            unsafe { libc::setsockopt(pfd, libc::SOL_SOCKET, libc::SO_RCVBUF, &one as *const _ as *const libc::c_void, 4) };
+            sys::set_nonblocking(pfd, true);
+            let req = spec::msg(spec::fe::GET_FEATURES, spec::F_VERSION1, &[]);
+            let mut blocked = false;
+            for _ in 0..20_000 {
+                let _ = sys::send_fds(pfd, &req, &[]);
+                if sys::parked_in(dtid, &[46]) {
+                    blocked = true;
+                    break;
+                }
+            }
+            if !blocked {
+                blocked = sys::wait_until(3000, || sys::parked_in(dtid, &[46]));
+            }
+            sys::set_nonblocking(pfd, false);
+            if !blocked {
+                report::inconclusive(&format!("{case}: daemon thread did not block in sendmsg"));
+                c.reset();
+                return;
+            }
+            report::count("position.blocked_in_sendmsg_certified", 1);
+        }
     }
     if let Some(p) = held_point {
         if c.wait_arrival(10_000, |w| w.point == p).is_none() {
@@ -279,9 +308,9 @@ fn shutdown_case(cfg: &Cfg, pos: Pos, ncallers: usize, order: &[Tok], case: &str
                 );
                 std::process::exit(report::finish());
             }
-            if wt > 0 && sys::parked_in(wt, &[sys::SYS_FUTEX]) && daemon_alive && sys::parked_in(dtid, &[sys::SYS_RECVMSG, sys::SYS_FUTEX]) && c.waiting().is_empty() {
+            if wt > 0 && sys::parked_in(wt, &[sys::SYS_FUTEX]) && daemon_alive && sys::parked_in(dtid, &[sys::SYS_RECVMSG, sys::SYS_FUTEX, 46]) && c.waiting().is_empty() {
                 std::thread::sleep(Duration::from_millis(20));
-                if !done.load(Ordering::SeqCst) && sys::parked_in(dtid, &[sys::SYS_RECVMSG, sys::SYS_FUTEX]) && sys::parked_in(wt, &[sys::SYS_FUTEX]) {
+                if !done.load(Ordering::SeqCst) && sys::parked_in(dtid, &[sys::SYS_RECVMSG, sys::SYS_FUTEX, 46]) && sys::parked_in(wt, &[sys::SYS_FUTEX]) {
                     certificate = Some(format!("wait() parked joining the daemon thread; daemon thread {dtid} parked in syscall {:?}; all {ncallers} shutdown request(s) completed; no hold pending", sys::thread_syscall(dtid)));
                     break;
                 }
